@@ -170,11 +170,14 @@ class ProviderAE(object):
         self.status, self.fail = status, fail
         self.received = []
         self.storage = storage
+        self.closes = False           # the application closes the file it is handed once it has read it (`with ds:`)
 
     def on_receive_store(self, ctx, ds):
         pos = ds.tell()
         self.received.append((ctx, ds.read()))
         ds.seek(pos)
+        if self.closes:
+            ds.close()
         if self.fail:
             raise exceptions.EventHandlingError('cannot store')
         return self.status
@@ -323,9 +326,10 @@ def sample_dataset():
 
 @cond(bounds='store from *memory* (a Dataset with odd-length values and a nested sequence): negotiated transfer syntax '
              'symbolic over implicit LE / explicit LE / explicit BE, maximum PDU lengths of both sides symbolic from '
-             '{16384, 46, 80}, message id symbolic, handler outcome symbolic (4 codes or EventHandlingError)',
+             '{16384, 46, 80}, message id symbolic, handler outcome symbolic (4 codes or EventHandlingError); the handler '
+             'leaves the file it is handed open or closes it itself once it has read it (symbolic)',
       family={'tsi': [0, 1, 2]}, timeout=300)
-def store_dataset_end_to_end(pair: int, mid: int, sti: int, fail: bool) -> bool:
+def store_dataset_end_to_end(pair: int, mid: int, sti: int, fail: bool, closes: bool) -> bool:
     """
     pre: 0 <= pair < len(PAIRS()) and 0 <= mid <= 65535 and 0 <= sti < len(STATI)
     post: _
@@ -337,6 +341,7 @@ def store_dataset_end_to_end(pair: int, mid: int, sti: int, fail: bool) -> bool:
     rae = object.__new__(applicationentity.AE)
     applicationentity.AEBase.__init__(rae, TS_LIST, MS[mp])
     pae = ProviderAE(st, fail)
+    pae.closes = closes
     ua = UserAssoc(SenderAE(), pae, ts, MS[mu], MS[mp], rae.get_file)
     ctx = asceprovider.PContextDef(3, pydicom.uid.UID(CT), ts)
     status = sopclass.storage_scu(ua, ctx, sample_dataset(), mid)
